@@ -39,6 +39,7 @@ type ClusterOpts struct {
 	CompactMs   int                      `json:"compact_ms"`    // TriggerCompactionInterval, 0 = 1h
 	PushMs      int                      `json:"push_ms"`       // RoutingTablePushInterval, 0 = default
 	FastGossip  bool                     `json:"fast_gossip"`
+	BalancerMs  int                      `json:"balancer_ms"` // TriggerBalancerInterval, 0 = default
 }
 
 type DMapOpts struct {
@@ -136,6 +137,9 @@ func (cl *Cluster) newConfig() *config.Config {
 	c.LogVerbosity = 1
 	if o.PushMs > 0 {
 		c.RoutingTablePushInterval = time.Duration(o.PushMs) * time.Millisecond
+	}
+	if o.BalancerMs > 0 {
+		c.TriggerBalancerInterval = time.Duration(o.BalancerMs) * time.Millisecond
 	}
 	dm := &config.DMaps{}
 	if o.TableSize != 0 {
